@@ -74,6 +74,13 @@ CLAIMS = {
          "type error, never a crash, and no invocation is logged; a host function registered under a built-in's name replaces it. Tied to magic.rs / "
          "resolvers.rs / functions.rs by all built-ins x all boundary values in both styles (equivalence also evaluated on the implementation) and by "
          "41 pre-written host closures covering every extractor kind, called with 0..arity+2 arguments of matching and mismatching kinds."),
+ "C07": ("Theorems on the ordered host-call log of Eval.eval: for programs without macros the number of invocations is at most the number of "
+         "call nodes (linear bound, by induction over expressions; every extractor list that touches each argument once - all built-ins - is covered); "
+         "a call's log is the receiver's log, then logs of argument results in argument order (at most their total), then at most one invocation; "
+         "strict binary operators evaluate left then right and stop at a left error; list elements in source order, each once. The bound for programs "
+         "with macros (size x product of ranges) is not proved (partial). Tied to objects.rs/magic.rs by programs whose leaves and calls are wrapped "
+         "by id-carrying logging host functions (order and multiplicity visible), every call shape (0-4 arguments, global/receiver, built-in/host, "
+         "Arguments), and nested chains to depth 14/22 whose log length was 2^depth before the fix."),
  "C06": ("Theorems that Eval.eval (a structural Fixpoint transcribing Value::resolve) returns the left operand's outcome "
          "and host-call log alone when && / || are decided by it, evaluates exactly one branch of ?:, and propagates a "
          "left error - for every context and operand expression, hence at every depth and inside macro bodies. Tied to the "
